@@ -15,6 +15,7 @@ def Ptr(mut, t): return ('Ptr', mut, t)
 def Slice(t): return ('Slice', t)
 def Arr(t, e): return ('Arr', t, e)
 def Fn(abi, unsafe, args, ret): return ('Fn', abi, unsafe, tuple(args), ret)
+def Named(name, t): return ('Named', name, t)    # a named argument of a fn pointer type: `fn(value: T)`
 def Dyn(*bounds): return ('Dyn', bounds)
 def Proj(t, tr, a): return ('Proj', t, tr, a)   # <t as tr>::a
 def Paren(t): return ('Paren', t)
@@ -98,6 +99,8 @@ def show(t):
         abi = {None: '', '': 'extern ', 'C': 'extern "C" ', 'system': 'extern "system" '}[t[1]]
         ret = '' if t[4] is None else ' -> ' + show(t[4])
         return '%s%sfn(%s)%s' % ('unsafe ' if t[2] else '', abi, ', '.join(show(x) for x in t[3]), ret)
+    if k == 'Named':
+        return '%s: %s' % (t[1], show(t[2]))
     if k == 'Dyn':
         return 'dyn ' + ' + '.join(("'" + b[1]) if b[0] == 'GLt' else show(b) for b in t[1])
     if k == 'Proj':
@@ -209,7 +212,7 @@ def small_exprs(budget, nparams=2):
             for l in out.get(ln, []):
                 for r in out.get(rn, []):
                     if atomic(l) and atomic(r):
-                        for op in ('+', '-'):
+                        for op in ('+', '-', '<', '&&'):
                             cur.append(Bin(op, l, r))
         out[n] = cur
     return [e for n in sorted(out) for e in out[n]]
@@ -259,7 +262,7 @@ def rand_expr(rng, depth, nparams, allow_params=True):
     sub = lambda: rand_expr(rng, depth - 1, nparams, allow_params)
     at = lambda: (lambda e: e if atomic(e) else ParE(e))(sub())
     if k == 'Bin':
-        return Bin(rng.choice(['+', '-', '*', '/', '%', '&', '|', '^', '<<', '==', '<']), at(), at())
+        return Bin(rng.choice(['+', '-', '*', '/', '%', '&', '|', '^', '<<', '==', '<', '<=', '>', '>=', '&&', '||', '!=', '>>']), at(), at())
     if k == 'Un':
         return Un(rng.choice(['-', '!']), at())
     if k == 'ParE':
@@ -312,8 +315,9 @@ def rand_type(rng, depth, nparams, allow_params=True, exprs=True):
             return Arr(sub(), rand_expr(rng, 2, nparams, allow_params))
         return Arr(sub(), Lit('3'))
     if k == 'Fn':
+        named = rng.random() < 0.3      # `fn(value: T, other: U)`: names are part of the syntax tree
         return Fn(rng.choice([None, None, '', 'C', 'system']), rng.random() < 0.2,
-                  [sub() for _ in range(rng.randrange(3))], rng.choice([None, sub()]))
+                  [(Named(['value', 'other', 'x'][i], sub()) if named else sub()) for i in range(rng.randrange(3))], rng.choice([None, sub()]))
     if k == 'Dyn':
         bounds = [C(rng.choice(['Tr', 'm::Tq']), *([sub()] if rng.random() < 0.6 else []),
                     *([GAssoc('A', sub())] if rng.random() < 0.5 else []))]
@@ -386,6 +390,8 @@ def mutate(rng, x):
         return Ptr(x[2], x[3])
     if k == 'Ptr':
         return Ptr(not x[1], x[2])
+    if k == 'Named':
+        return x[2] if rng.random() < 0.5 else Named(x[1] + 'q', x[2])
     if k == 'Tup':
         return Tup(*(x[1] + (C('u8'),))) if rng.random() < 0.5 or not x[1] else Tup(*x[1][:-1])
     if k == 'C':
@@ -422,6 +428,8 @@ def mutate(rng, x):
     if k == 'Lit':
         return Lit(x[1] + '0' if x[1][0].isdigit() else '7')
     if k == 'Bin':
+        if rng.random() < 0.5:
+            return Bin(x[1], x[3], x[2])      # operands swapped: only a commutative operator may still match
         return Bin('-' if x[1] != '-' else '/', x[2], x[3])
     if k == 'Un':
         return Un('!' if x[1] == '-' else '-', x[2])
